@@ -39,7 +39,10 @@ def gen_world(rng, n_minerals=None, regimes=None, allow_pydrex=True, flow_famili
     return {
         "paramsets": paramsets, "flows": flows, "paths": paths, "minerals": minerals,
         "regime_fields": [],
-        "solver": {"tol": "tight" if rng.random() < tight_share else "default"},
+        # documented **kwargs forwarded to the solver: tolerances, first step, step limit
+        "solver": dict({"tol": "tight" if rng.random() < tight_share else "default"},
+                       **({"first_step": rng.choice([0.01, 0.5, 1.0])} if rng.random() < 0.15 else {}),
+                       **({"max_step": rng.choice([0.05, 0.5])} if rng.random() < 0.1 else {})),
         "transform": {"k": k},
     }
 
